@@ -556,6 +556,18 @@ func (mf *MultiFileAppendable) DiscardUpto(off int64) error {
 }
 
 func (mf *MultiFileAppendable) appendableFor(off int64) (appendable.Appendable, error) {
+	for {
+		app, err := mf.cachedAppendableFor(off)
+		if errors.Is(err, cache.ErrKeyNotFound) {
+			// the chunk was opened and cached, then evicted by a concurrent reader
+			// before it could be picked up: start over
+			continue
+		}
+		return app, err
+	}
+}
+
+func (mf *MultiFileAppendable) cachedAppendableFor(off int64) (appendable.Appendable, error) {
 	mf.mutex.Lock()
 
 	if mf.closed {
